@@ -189,7 +189,8 @@ Proof.
       eexists. split; [do 4 right; left; reflexivity|apply inside_refl].
   - apply in_flat_map in Hin. destruct Hin as (c & Hc & Hin).
     exists (fst (ck_bloom c), ft_size t - fst (ck_bloom c)). split.
-    + unfold declared_ranges. apply in_app_iff. right. apply in_flat_map. exists c. split; [exact Hc|cbn; auto].
+    + unfold declared_ranges. apply in_app_iff. right. apply in_flat_map. exists c. split; [exact Hc|].
+      right. unfold bloom_reads in Hin. destruct (0 <? fst (ck_bloom c)); [left; reflexivity|destruct Hin].
     + eapply bloom_reads_inside; eauto.
   - unfold read_demand in Hin. apply in_flat_map in Hin. destruct Hin as (c & Hc & Hin).
     exists (ck_start c, ck_size c). split.
